@@ -77,6 +77,7 @@ func checkC05(c *Ctx, r *Report) {
 	textIgnoresRdlength(c, r, "C05.R1.text-ignores-rdlength")
 	mappedAddressAgreement(c, r, "C05.R3.mapped-address-agreement")
 	lexerKeepsEscaped(c, r, "C05.R3.lexer-keeps-escaped")
+	round12(c, r, "C05")
 }
 
 // c05R5: numeric limit agreement: the TTL parser accepts exactly the range the 32-bit header field (and its printer) has.
